@@ -108,6 +108,9 @@ func Any(v any) (res ipld.Node, err error) {
 	case datamodel.Node:
 		return val, nil
 	case cid.Cid:
+		if !val.Defined() {
+			return nil, fmt.Errorf("undefined CID: it can't be encoded")
+		}
 		return LinkCid(val), nil
 	default:
 	}
@@ -199,6 +202,9 @@ func anyAssemble(val any) qp.Assemble {
 	case reflect.Struct:
 		if rt == reflect.TypeOf(cid.Cid{}) {
 			c := rv.Interface().(cid.Cid)
+			if !c.Defined() {
+				panic("undefined CID: it can't be encoded")
+			}
 			return qp.Link(cidlink.Link{Cid: c})
 		}
 	default:
